@@ -161,3 +161,25 @@ def udt_view(size, members, bits, hidden, data):
         if name not in hidden:
             out[name] = ((data[offset] >> bit) & 1) == 1
     return out
+
+
+def sub_reply(service, status, payload=b""):
+    """an embedded (or stand-alone) service reply: reply service, reserved, general status, no extended status"""
+    return bytes([service | 0x80, 0, status, 0]) + (payload if status == 0 or status == 6 else b"")
+
+
+def parse_multi_request(msg):
+    """embedded service requests of a Multiple Service Packet request (after the sequence count)"""
+    if msg[:6] != b"\x0a\x02\x20\x02\x24\x01":
+        return None
+    n = le(msg, 6, 2)
+    offs = [le(msg, 8 + 2 * i, 2) for i in range(n)]
+    out = []
+    for i in range(n):
+        end = offs[i + 1] if i + 1 < n else len(msg) - 6
+        out.append(msg[6 + offs[i]:6 + end])
+    return out
+
+
+def bit_of(value, bit):
+    return ((value >> bit) & 1) == 1
